@@ -11,7 +11,7 @@ PROPERTY = "C09"
 RULE = ("histories (Hypothesis RuleBasedStateMachine, <= 20 / 40 steps) over a bundle of "
         "generated caption sets - metacharacter texts, styles, layouts in % and px at every "
         "level, balanced and unbalanced STYLE nodes, captions of 16+ lines, empty languages, 1-2 "
-        "languages - and a pool of writer objects per (class, constructor options). Rules: add a "
+        "languages, plus the caption sets the readers return for the repository's documents - and a pool of writer objects per (class, constructor options). Rules: add a "
         "set; write a set with one of the eight writers on a fresh or a pooled (previously used) "
         "writer object with generated constructor / call options; write an earlier (set, writer, "
         "options) combination again. Around every write the deep structural dump of the set "
@@ -59,6 +59,23 @@ def set_strategy():
                                "padding": None, "align": ["left", None], "webvtt": None}
         return s
     return build()
+
+
+_READER_SETS = None
+
+
+def reader_sets():
+    """Canonical dumps (= models) of the caption sets read from the repository's documents."""
+    global _READER_SETS
+    if _READER_SETS is None:
+        from .. import corpus
+        out = []
+        for name, cls, cs in corpus.read_all():
+            d = model.dump(cs)
+            if sum(len(l["cues"]) for l in d["langs"]) <= 40:
+                out.append(d)
+        _READER_SETS = out
+    return _READER_SETS
 
 
 def ctor_strategy(name):
@@ -210,6 +227,12 @@ def machine(tier, hook):
         @rule(s=set_strategy())
         def new_set(self, s):
             self._do({"op": "new_set", "set": s})
+
+        @rule(i=st.integers(0, 10 ** 6))
+        def new_set_from_reader(self, i):
+            """a caption set as some reader returns it for a document of the repository"""
+            sets = reader_sets()
+            self._do({"op": "new_set", "set": sets[i % len(sets)]})
 
         @precondition(lambda self: len(self.st.sets) > 0)
         @rule(data=st.data())
